@@ -673,6 +673,9 @@ func (v *FV) doCall2(fr *Frame, st *State, cc *ssa.CallCommon, recvTV TV, args [
 		}
 		return v.applyContract(fr, st, con, callee, cc, recvTV, args, pos)
 	}
+	if v.isNoEffect(cc, callee) {
+		return v.freshResults(st, rt, "ne")
+	}
 	// closures and inlinable functions
 	if ci, ok := fr.closures[cc.Value]; ok && ci.fn.Blocks != nil && fr.depth < maxInlineDepth {
 		if len(findLoops(ci.fn)) == 0 || v.eng.db.Contracts[fnKey(ci.fn)] != nil {
@@ -687,7 +690,17 @@ func (v *FV) doCall2(fr *Frame, st *State, cc *ssa.CallCommon, recvTV TV, args [
 	}
 	name := v.calleeName(cc, callee)
 	v.note("call to %s at %s has no contract and is not inlinable: all heap state havocked, results arbitrary", name, pos)
+	v.regArray("CALLS", fmt.Sprintf("(Array Int %s)", v.idx()))
+	v.regArray("ARGNN", "(Array Int Bool)")
 	v.havocAll(st.snap)
+	if callee == nil && !cc.IsInvoke() {
+		// a function value (client code): count the call in the ghost trace
+		fv := recvTV
+		if fv.T == "" {
+			fv = v.val(fr, cc.Value)
+		}
+		v.bumpCalls(st, fv.T, args)
+	}
 	return v.freshResults(st, rt, "unk")
 }
 
@@ -712,6 +725,7 @@ func (v *FV) inline(fr *Frame, st *State, callee *ssa.Function, args []TV, bindi
 	for k, m := range st.held {
 		sub.held[k] = m
 	}
+	sub.panicking, sub.recovered = st.panicking, st.recovered
 	exits := v.execBody(nf, sub)
 	v.curFnKey = saveKey
 	v.inlineStack = v.inlineStack[:len(v.inlineStack)-1]
@@ -740,6 +754,7 @@ func (v *FV) inline(fr *Frame, st *State, callee *ssa.Function, args []TV, bindi
 	} else {
 		st.reach = v.define(nf.prefix+"Rret", "Bool", "(or "+strings.Join(conds, " ")+")")
 	}
+	st.panicking, st.recovered = normal[0].st.panicking, normal[0].st.recovered
 	st.held = map[string]string{}
 	for k, m := range normal[0].st.held {
 		keep := true
@@ -1042,7 +1057,14 @@ func (v *FV) builtin(fr *Frame, st *State, in ssa.Value, cc *ssa.CallCommon, b *
 	case "print", "println":
 		fr.vals[in] = TV{T: "0", Ty: in.Type(), Sort: "Int"}
 	case "recover":
-		v.freshVal(fr, in, st)
+		if st.panicking {
+			tv := v.freshVal(fr, in, st)
+			v.assume(st.reach, fmt.Sprintf("(not (= %s 0))", tv.T))
+			st.panicking = false
+			st.recovered = true
+		} else {
+			fr.vals[in] = TV{T: "0", Ty: in.Type(), Sort: "Int"}
+		}
 	case "close":
 		fr.vals[in] = TV{T: "0", Ty: in.Type(), Sort: "Int"}
 	default:
@@ -1357,5 +1379,17 @@ func (v *FV) sharedAfterStep(fr *Frame, st *State, before *Snapshot, pos, what s
 		if t, err := env.EvalBool(sd.Rely); err == nil {
 			v.oblige("guar", "", pos, "the step "+shortKey(what)+" respects what other threads rely on: "+sd.Rely, st.reach, t)
 		}
+	}
+}
+
+// bumpCalls: ghost call trace of function values: CALLS[f] counts invocations, ARGNN[f]
+// tells whether the first argument of the last invocation was non-nil.
+func (v *FV) bumpCalls(st *State, f Term, args []TV) {
+	v.regArray("CALLS", fmt.Sprintf("(Array Int %s)", v.idx()))
+	v.regArray("ARGNN", "(Array Int Bool)")
+	h := v.heapGet(st.snap, "CALLS")
+	v.heapSet(st.snap, "CALLS", fmt.Sprintf("(store %s %s %s)", h, f, v.iadd(fmt.Sprintf("(select %s %s)", h, f), v.idxLit(1))))
+	if len(args) > 0 && args[0].Sort == "Int" {
+		v.heapSet(st.snap, "ARGNN", fmt.Sprintf("(store %s %s (not (= %s 0)))", v.heapGet(st.snap, "ARGNN"), f, args[0].T))
 	}
 }
